@@ -25,7 +25,11 @@ theorem writeSet_forceEffects (h : Heap K) (o : Nat) (A : Obj K) (hA : h.objs[o]
     writeSet (forceEffects A) = forceLocs h o := by
   unfold forceEffects forceLocs
   rw [hA]
-  cases A.tree.rootTab? <;> simp [writeSet_cons, writeSet_nil, Effect.loc]
+  cases hr : A.tree.rootTab? <;> simp [hr, writeSet_cons, writeSet_nil, Effect.loc]
+
+theorem taperBuild_writeSet (A : Obj K) (d : TaperData K) (f b k : Bool) (n m : Nat) :
+    writeSet (taperBuild A d f b k n m).1 = [] := by
+  simp [taperBuild, writeSet_cons, writeSet_nil, Effect.loc]
 
 theorem taperCore_writeSet (h : Heap K) (A : Obj K) (d : TaperData K) (n m : Nat)
     (es : List (Effect K)) (ob : Obj K) (he : taperCore h A d n m = some (es, ob)) :
@@ -34,9 +38,9 @@ theorem taperCore_writeSet (h : Heap K) (A : Obj K) (d : TaperData K) (n m : Nat
   simp only at he
   split at he
   · cases he
-  · simp only [Option.some.injEq, Prod.mk.injEq] at he
-    obtain ⟨rfl, _⟩ := he
-    simp [writeSet_cons, writeSet_nil, Effect.loc]
+  · simp only [Option.some.injEq] at he
+    have := taperBuild_writeSet A d (taperEnds h A d).1 (taperEnds h A d).2.1 (taperEnds h A d).2.2 n m
+    rw [he] at this; exact this
 
 theorem cellData_aliased (c : ArrCell K) (conv : List K) (h : c.container.aliased = true) :
     cellData c conv = c.data := by
@@ -101,5 +105,328 @@ theorem newEmpirical_writes (fx : Fixes) (h : Heap K) (kind : Kind) (x y : Nat) 
           · exact key l h1
           · simp [writeSet_cons, writeSet_nil, Effect.loc] at h1
   · simp [writeSet_nil] at hl
+
+theorem normalize_writes (h : Heap K) (o band : Nat) (force : Bool) (stat : Overlap) (k : K)
+    (numErr : Option Err) :
+    ∀ l ∈ writeSet (normalize h o band force stat k numErr).1,
+      l ∈ documented h (.normalize o band force stat k numErr) := by
+  intro l hl
+  unfold normalize at hl
+  split at hl
+  · rename_i A B hA hB
+    split at hl
+    · simp [writeSet_nil] at hl
+    · split at hl
+      · simp [writeSet_nil] at hl
+      · split at hl
+        · simp [writeSet_nil] at hl
+        · split at hl
+          · simp [writeSet_nil] at hl
+          · split at hl
+            · simp [writeSet_nil] at hl
+            · split at hl <;> simp [writeSet_nil, writeSet_cons, Effect.loc] at hl
+            · rename_i hs1 hs2
+              have hp : stat.isPartial = true := by
+                cases stat <;> simp_all [Overlap.isPartial]
+              split at hl
+              · simp [writeSet_nil] at hl
+              · simp only [documented, hp, if_true]
+                split at hl
+                · rw [writeSet_forceEffects h o A hA] at hl; exact hl
+                · rw [writeSet_append, writeSet_forceEffects h o A hA] at hl
+                  simpa [writeSet_cons, writeSet_nil, Effect.loc] using hl
+  · simp [writeSet_nil] at hl
+
+theorem observation_writes (h : Heap K) (src band : Nat) (force : Force) (stat : Overlap)
+    (binset : Option (Nat × List K)) (d : TaperData K) (numErr : Option Err) :
+    ∀ l ∈ writeSet (observation h src band force stat binset d numErr).1,
+      l ∈ documented h (.observation src band force stat binset d numErr) := by
+  intro l hl
+  unfold observation at hl
+  split at hl
+  · rename_i S B hS hB
+    split at hl
+    · simp [writeSet_nil] at hl
+    · split at hl
+      · simp [writeSet_nil] at hl
+      · split at hl
+        · simp [writeSet_nil] at hl
+        · rename_i mS hmS
+          split at hl
+          · simp [writeSet_nil] at hl
+          · simp only at hl
+            split at hl
+            · simp [writeSet_nil] at hl
+            · rename_i es sid S' warn tapered hadm
+              -- every effect of the admission step that is not an allocation is the forced extrapolation
+              have hes : ∀ l ∈ writeSet es,
+                  l ∈ documented h (.observation src band force stat binset d numErr) := by
+                intro l hl
+                cases stat with
+                | none => simp at hadm
+                | full =>
+                  simp only [Except.ok.injEq, Prod.mk.injEq] at hadm
+                  obtain ⟨rfl, _⟩ := hadm
+                  simp [writeSet_nil] at hl
+                | partialMost =>
+                  cases force with
+                  | none => simp at hadm
+                  | bogus => simp at hadm
+                  | extrap =>
+                    simp only [Except.ok.injEq, Prod.mk.injEq] at hadm
+                    obtain ⟨rfl, _⟩ := hadm
+                    rw [writeSet_forceEffects h src S hS] at hl
+                    simpa [documented, Overlap.isPartial] using hl
+                  | taper =>
+                    simp only at hadm
+                    split at hadm
+                    · simp at hadm
+                    · split at hadm
+                      · simp only [Except.ok.injEq, Prod.mk.injEq] at hadm
+                        obtain ⟨rfl, _⟩ := hadm
+                        simp [writeSet_nil] at hl
+                      · rename_i es' ob htc
+                        simp only [Except.ok.injEq, Prod.mk.injEq] at hadm
+                        obtain ⟨rfl, _⟩ := hadm
+                        rw [writeSet_append, taperCore_writeSet h S d _ _ es' ob htc] at hl
+                        simp [writeSet_cons, writeSet_nil, Effect.loc] at hl
+                | partialNotMost =>
+                  cases force with
+                  | none => simp at hadm
+                  | bogus => simp at hadm
+                  | extrap =>
+                    simp only [Except.ok.injEq, Prod.mk.injEq] at hadm
+                    obtain ⟨rfl, _⟩ := hadm
+                    rw [writeSet_forceEffects h src S hS] at hl
+                    simpa [documented, Overlap.isPartial] using hl
+                  | taper =>
+                    simp only at hadm
+                    split at hadm
+                    · simp at hadm
+                    · split at hadm
+                      · simp only [Except.ok.injEq, Prod.mk.injEq] at hadm
+                        obtain ⟨rfl, _⟩ := hadm
+                        simp [writeSet_nil] at hl
+                      · rename_i es' ob htc
+                        simp only [Except.ok.injEq, Prod.mk.injEq] at hadm
+                        obtain ⟨rfl, _⟩ := hadm
+                        rw [writeSet_append, taperCore_writeSet h S d _ _ es' ob htc] at hl
+                        simp [writeSet_cons, writeSet_nil, Effect.loc] at hl
+              have hper : ∀ l ∈ writeSet (es.filter fun e => !e.isAlloc),
+                  l ∈ documented h (.observation src band force stat binset d numErr) :=
+                fun l hl => hes l (writeSet_filter_sub es _ l hl)
+              split at hl
+              · exact hper l hl
+              · split at hl
+                · exact hper l hl
+                · exact hper l hl
+                · rw [writeSet_append] at hl
+                  rcases List.mem_append.mp hl with h1 | h1
+                  · exact hes l h1
+                  · simp [writeSet_cons, writeSet_nil, Effect.loc] at h1
+  · simp [writeSet_nil] at hl
+
+theorem mem_evalEffects (fx : Fixes) (h : Heap K) (o : Nat) (A : Obj K) (mA : HTree K)
+    (hA : h.objs[o]? = some A) (hm : A.model = .ok mA) :
+    ∀ l ∈ writeSet (evalEffects fx mA), l ∈ errLocs fx h o := by
+  intro l hl
+  rw [writeSet_evalEffects] at hl
+  unfold errLocs
+  rw [objHasBadBB_of h o A mA hA hm]
+  split at hl
+  · rename_i hc
+    simp only [Bool.and_eq_true, Bool.not_eq_true'] at hc
+    simp [hc.1, hc.2] at hl ⊢
+    exact hl
+  · simp at hl
+
+theorem integrate_writes (fx : Fixes) (h : Heap K) (o : Nat) (w : WaveArg K) (t : IntegType)
+    (numErr : Option Err) :
+    ∀ l ∈ writeSet (integrate fx h o w t numErr).1, l ∈ errLocs fx h o := by
+  intro l hl
+  unfold integrate at hl
+  split at hl
+  · simp [writeSet_nil] at hl
+  · rename_i A hA
+    split at hl
+    · simp [writeSet_nil] at hl
+    · rename_i mA hm
+      split at hl
+      · simp [writeSet_nil] at hl
+      · simp only at hl
+        split at hl
+        · simp [writeSet_nil] at hl
+        · simp [writeSet_nil] at hl
+        · simp [writeSet_nil] at hl
+        · split at hl
+          · exact mem_evalEffects fx h o A mA hA hm l hl
+          · simp [writeSet_nil] at hl
+
+theorem query_writes (fx : Fixes) (h : Heap K) (o : Nat) (w : WaveArg K) (numErr : Option Err) :
+    ∀ l ∈ writeSet (query fx h o w numErr).1, l ∈ errLocs fx h o := by
+  intro l hl
+  unfold query at hl
+  split at hl
+  · simp [writeSet_nil] at hl
+  · rename_i A hA
+    split at hl
+    · simp [writeSet_nil] at hl
+    · rename_i mA hm
+      split at hl
+      · simp [writeSet_nil] at hl
+      · split at hl
+        · exact mem_evalEffects fx h o A mA hA hm l hl
+        · simp [writeSet_nil] at hl
+
+theorem sampleCall_writes (fx : Fixes) (env : HEnv K) (h : Heap K) (o w : Nat) (conv : List K) :
+    ∀ l ∈ writeSet (sampleCall fx env h o w conv).1, l ∈ errLocs fx h o := by
+  intro l hl
+  unfold sampleCall at hl
+  split at hl
+  · rename_i A c hA hc
+    simp only at hl
+    split at hl
+    · simp [writeSet_nil] at hl
+    · split at hl
+      · simp [writeSet_nil] at hl
+      · rename_i mA hm
+        exact mem_evalEffects fx h o A mA hA hm l hl
+  · simp [writeSet_nil] at hl
+
+theorem toFits_writes (fx : Fixes) (h : Heap K) (o : Nat) (w : WaveArg K) (dh : Option Nat)
+    (ioErr : Option Err) :
+    ∀ l ∈ writeSet (toFits fx h o w dh ioErr).1, l ∈ hidden fx h (.toFits o w dh ioErr) := by
+  intro l hl
+  unfold toFits at hl
+  split at hl
+  · simp [writeSet_nil] at hl
+  · rename_i A hA
+    split at hl
+    · simp [writeSet_nil] at hl
+    · split at hl
+      · simp [writeSet_nil] at hl
+      · rename_i mA hm
+        split at hl
+        · simp [writeSet_nil] at hl
+        · split at hl
+          · simp only [hidden, List.mem_append]
+            exact Or.inr (mem_evalEffects fx h o A mA hA hm l hl)
+          · simp only at hl
+            cases dh with
+            | none => simp [writeSet_nil] at hl
+            | some d =>
+              simp only at hl
+              split at hl
+              · simp [writeSet_nil] at hl
+              · rename_i hf
+                split at hl
+                · simp only [writeSet_cons, writeSet_nil, Effect.loc, List.append_nil,
+                    List.mem_singleton] at hl
+                  subst hl
+                  simp only [Bool.not_eq_true] at hf
+                  simp [hidden, hf]
+                · simp [writeSet_nil] at hl
+
+/-- **every store a call makes into an existing cell is either documented or one of the three
+undocumented writes selected by `fx`** -/
+theorem writes_classified (fx : Fixes) (env : HEnv K) (h : Heap K) (c : Call K) :
+    ∀ l ∈ writes fx env h c, l ∈ documented h c ∨ l ∈ hidden fx h c := by
+  intro l hl
+  unfold writes at hl
+  cases c with
+  | newEmpirical kind x y xc yc keep md => exact Or.inr (newEmpirical_writes fx h kind x y xc yc keep md l hl)
+  | newAnalytic kind lf => simp [effects, writeSet_cons, writeSet_nil, Effect.loc] at hl
+  | newBlackBody temp label => simp [effects, writeSet_cons, writeSet_nil, Effect.loc] at hl
+  | sample o w conv => exact Or.inr (by simpa [hidden] using sampleCall_writes fx env h o w conv l hl)
+  | arith op a b =>
+    simp only [effects, arith] at hl
+    split at hl
+    · split at hl
+      · simp [writeSet_nil] at hl
+      · split at hl
+        · simp [writeSet_nil] at hl
+        · split at hl <;> simp [writeSet_nil, writeSet_cons, Effect.loc] at hl
+    · simp [writeSet_nil] at hl
+  | rmul v a =>
+    simp only [effects, arith] at hl
+    split at hl
+    · split at hl
+      · simp [writeSet_nil] at hl
+      · split at hl
+        · simp [writeSet_nil] at hl
+        · split at hl <;> simp [writeSet_nil, writeSet_cons, Effect.loc] at hl
+    · simp [writeSet_nil] at hl
+  | normalize o band force stat k numErr => exact Or.inl (normalize_writes h o band force stat k numErr l hl)
+  | taper o d =>
+    simp only [effects, taper] at hl
+    split at hl
+    · simp [writeSet_nil] at hl
+    · split at hl
+      · simp [writeSet_nil] at hl
+      · split at hl
+        · simp [writeSet_nil] at hl
+        · split at hl
+          · simp [writeSet_nil] at hl
+          · simp [writeSet_nil] at hl
+          · split at hl
+            · simp [writeSet_nil] at hl
+            · split at hl
+              · simp [writeSet_nil] at hl
+              · rename_i es ob htc
+                rw [writeSet_append, taperCore_writeSet h _ d _ _ es ob htc] at hl
+                simp [writeSet_cons, writeSet_nil, Effect.loc] at hl
+  | observation src band force stat binset d numErr =>
+    exact Or.inl (observation_writes h src band force stat binset d numErr l hl)
+  | integrate o w t numErr => exact Or.inr (by simpa [hidden] using integrate_writes fx h o w t numErr l hl)
+  | query o w numErr => exact Or.inr (by simpa [hidden] using query_writes fx h o w numErr l hl)
+  | toFits o w d ioErr => exact Or.inr (toFits_writes fx h o w d ioErr l hl)
+  | utility arrs dicts out => simp [effects, writeSet_nil] at hl
+  | setZ o z =>
+    simp only [effects, setZ] at hl
+    split at hl
+    · simp [writeSet_nil] at hl
+    · split at hl <;> simp [writeSet_nil, writeSet_cons, Effect.loc] at hl
+      exact Or.inl (by simp [documented, hl])
+  | setZBad o =>
+    simp only [effects, setZBad] at hl
+    split at hl
+    · simp [writeSet_nil] at hl
+    · split at hl <;> simp [writeSet_nil] at hl
+  | setZType o t =>
+    simp only [effects, setZType] at hl
+    split at hl
+    · simp [writeSet_nil] at hl
+    · split at hl <;> simp [writeSet_nil, writeSet_cons, Effect.loc] at hl
+      exact Or.inl (by simp [documented, hl])
+  | setZTypeBad o =>
+    simp only [effects, setZBad] at hl
+    split at hl
+    · simp [writeSet_nil] at hl
+    · split at hl <;> simp [writeSet_nil] at hl
+  | forceExtrap o =>
+    simp only [effects, forceExtrap] at hl
+    split at hl
+    · simp [writeSet_nil] at hl
+    · rename_i A hA
+      rw [writeSet_forceEffects h o A hA] at hl
+      exact Or.inl (by simpa [documented] using hl)
+  | setWarnings o w =>
+    simp only [effects, setWarnings] at hl
+    split at hl
+    · simp [writeSet_nil] at hl
+    · simp [writeSet_nil, writeSet_cons, Effect.loc] at hl
+      exact Or.inl (by simp [documented, hl])
+  | setMeta o k v =>
+    simp only [effects, setMeta] at hl
+    split at hl
+    · simp [writeSet_nil] at hl
+    · simp [writeSet_nil, writeSet_cons, Effect.loc] at hl
+      exact Or.inl (by simp [documented, hl])
+
+/-- with the three patches applied no call writes outside its documented write-set -/
+theorem hidden_repaired (h : Heap K) (c : Call K) : hidden Fixes.repaired h c = [] := by
+  cases c <;> simp [hidden, errLocs, Fixes.repaired]
+  rename_i d _
+  cases d <;> simp
 
 end Synphot.HeapModel
